@@ -204,3 +204,37 @@ def c12_not_atomic():
     except Exception as e:  # noqa: BLE001
         after = sorted(cur.execute("select k, v from t1").fetchall())
         return after != before, f"MERGE failed with {type(e).__name__} in a later step, target went {before} -> {after} (earlier DELETE step kept)"
+
+
+def c10_regexp_substr_e_parameter():
+    from vf.real import real_cursor
+
+    fs, conn, cur = real_cursor(False)
+    got = cur.execute("select regexp_substr('ab12', '([a-z]+)([0-9]+)', 1, 1, 'e')").fetchall()[0][0]
+    return got != "ab", f"regexp_substr(..., 'e') returned {got!r}; Snowflake extracts the first group 'ab' (sqlglot supplies group 0, the 'e' test in the transform is dead)"
+
+
+def c10_random_seed_range():
+    from vf.real import real_cursor
+
+    fs, conn, cur = real_cursor(False)
+    out = []
+    try:
+        cur.execute("select random(4294967296)").fetchall()
+    except Exception as e:  # noqa: BLE001
+        out.append(f"random(4294967296) -> {type(e).__name__}: {str(e)[:60]}")
+    a = cur.execute("select random(-5)").fetchall()
+    b = cur.execute("select random(-5)").fetchall()
+    if a != b:
+        out.append("random(-5) is not deterministic (negative seeds are ignored)")
+    return bool(out), "; ".join(out) or "ok"
+
+
+def c10_dateadd_quarter():
+    import datetime
+
+    from vf.real import real_cursor
+
+    fs, conn, cur = real_cursor(False)
+    got = cur.execute("select dateadd(quarter, 1, '2023-01-31'::date)").fetchall()[0][0]
+    return got != datetime.date(2023, 4, 30), f"dateadd(quarter, 1, '2023-01-31'::date) -> {got!r}; Snowflake: date 2023-04-30"
